@@ -8,6 +8,8 @@ from hypothesis import strategies as st
 from vf import ref
 from vf.core import Clause
 
+TINY = 1e-290      # results in the subnormal range carry fewer than 53 bits: never judged finer than this
+
 R_UNITS = ['J/mol/K', 'kJ/mol/K', 'L kPa/mol/K', 'cm3 kPa/mol/K', 'm3 Pa/mol/K', 'cm3 MPa/mol/K', 'm3 bar/mol/K',
            'L bar/mol/K', 'L torr/mol/K', 'cal/mol/K', 'kcal/mol/K', 'L atm/mol/K', 'cm3 atm/mol/K', 'eV/K', 'Eh/K',
            'Ha/K']
@@ -118,13 +120,13 @@ def _scalar_vs_ref(ctx, tag, obj, T, terms, with_G=True):
     h, hs = ref.tsum(terms[1])
     s, ss = ref.tsum(terms[2])
     eps = 1e-12
-    ctx.close(tag + '/closed-form:CpoR', obj.get_CpoR(T=T), cp, rtol=eps, atol=eps * cps, detail='T=%r' % T)
+    ctx.close(tag + '/closed-form:CpoR', obj.get_CpoR(T=T), cp, rtol=eps, atol=eps * cps + TINY, detail='T=%r' % T)
     H = obj.get_HoRT(T=T)
     S = obj.get_SoR(T=T)
-    ctx.close(tag + '/closed-form:HoRT', H, h, rtol=eps, atol=eps * hs, detail='T=%r' % T)
-    ctx.close(tag + '/closed-form:SoR', S, s, rtol=eps, atol=eps * ss, detail='T=%r' % T)
+    ctx.close(tag + '/closed-form:HoRT', H, h, rtol=eps, atol=eps * hs + TINY, detail='T=%r' % T)
+    ctx.close(tag + '/closed-form:SoR', S, s, rtol=eps, atol=eps * ss + TINY, detail='T=%r' % T)
     if with_G:
-        ctx.close(tag + '/G=H-TS', obj.get_GoRT(T=T), H - S, rtol=eps, atol=eps * (hs + ss), detail='T=%r' % T)
+        ctx.close(tag + '/G=H-TS', obj.get_GoRT(T=T), H - S, rtol=eps, atol=eps * (hs + ss) + TINY, detail='T=%r' % T)
     return cps, hs, ss
 
 
@@ -143,9 +145,9 @@ def _helpers(ctx, tag, fns, a, Ts, termf, form, **kw):
         for k, f in enumerate(fns):
             if form == 'scalar':
                 one = float(np.ravel(f(a=np.array(a), T=T, **kw))[0])
-                ctx.close('%s/helper:%s' % (tag, f.__name__), one, vals[k], rtol=eps, atol=eps * scs[k], detail='T=%r %r' % (T, kw))
+                ctx.close('%s/helper:%s' % (tag, f.__name__), one, vals[k], rtol=eps, atol=eps * scs[k] + TINY, detail='T=%r %r' % (T, kw))
             elif whole[k].shape == (len(Ts),):
-                ctx.close('%s/helper:%s' % (tag, f.__name__), whole[k][i], vals[k], rtol=eps, atol=eps * scs[k],
+                ctx.close('%s/helper:%s' % (tag, f.__name__), whole[k][i], vals[k], rtol=eps, atol=eps * scs[k] + TINY,
                           detail='T=%r in %r %r' % (T, Ts, kw))
             elif i == 0:
                 ctx.fail('%s/helper-shape:%s' % (tag, f.__name__), 'len(T)=%d shape %r' % (len(Ts), whole[k].shape))
@@ -189,8 +191,8 @@ def _derivatives(ctx, tag, obj, T, lo, hi, scales):
     # tolerance: truncation (checked through the h vs h/2 agreement) + round-off eps*f/h
     tolH = 1e-6 * cps + 2e-14 * hs * T / h + 0.05 * eH
     tolS = 1e-6 * cps + 2e-14 * ss * T / h + 0.05 * eS * T
-    ctx.close(tag + '/dH/dT=Cp', dH, cp, rtol=0, atol=tolH, detail='T=%r h=%r' % (T, h))
-    ctx.close(tag + '/TdS/dT=Cp', T * dS, cp, rtol=0, atol=tolS, detail='T=%r h=%r' % (T, h))
+    ctx.close(tag + '/dH/dT=Cp', dH, cp, rtol=0, atol=tolH + TINY, detail='T=%r h=%r' % (T, h))
+    ctx.close(tag + '/TdS/dT=Cp', T * dS, cp, rtol=0, atol=tolS + TINY, detail='T=%r h=%r' % (T, h))
 
 
 GETTERS = ['get_CpoR', 'get_HoRT', 'get_SoR', 'get_GoRT']
@@ -224,7 +226,7 @@ def _array_clause(ctx, tag, obj, T, how, scales, getters=GETTERS, dims=DIM, pris
         if w.shape != (len(T),):
             ctx.fail('%s/array-shape:%s' % (tag, g), 'len(T)=%d result shape %r' % (len(T), np.shape(whole)))
             continue
-        ctx.close('%s/array=scalars:%s' % (tag, g), w, single, rtol=1e-13, atol=1e-13 * scale,
+        ctx.close('%s/array=scalars:%s' % (tag, g), w, single, rtol=1e-13, atol=1e-13 * scale + TINY,
                   detail='T=%r (%s) %r' % (T, how, kw))
 
 
